@@ -282,6 +282,7 @@ impl Serialize for &[u16] {
 
 impl Serialize for WriteMultiple<bool> {
     fn serialize(&self, cursor: &mut WriteCursor) -> Result<(), RequestError> {
+        self.range.of_write_coils()?;
         self.range.serialize(cursor)?;
         self.values.as_slice().serialize(cursor)
     }
@@ -289,6 +290,7 @@ impl Serialize for WriteMultiple<bool> {
 
 impl Serialize for WriteMultiple<u16> {
     fn serialize(&self, cursor: &mut WriteCursor) -> Result<(), RequestError> {
+        self.range.of_write_registers()?;
         self.range.serialize(cursor)?;
         self.values.as_slice().serialize(cursor)
     }
